@@ -57,7 +57,7 @@ func runC11(e *Engine, g G, o RunOpt) RunInfo {
 		}
 		c.SrvSM = g.Pct("srvsm", 85)
 		c.Enable = []int{EnableOK, EnableOK, EnableOK, EnableNoResume, EnableFailed}[g.N("enable", 5)]
-		c.Resume = g.Weighted("resume", 5, 2, 4, 1, 1, 1, 2)
+		c.Resume = g.Weighted("resume", 5, 2, 4, 1, 1, 1, 1, 2)
 		c.Inbound = g.Range("inbound", 0, 5)
 		c.Outbound = g.Range("outbound", 0, 3)
 		c.CutInside = g.Bool("cutinside")
